@@ -60,3 +60,12 @@ func (d dense) IsEdge(i, j int) bool {
 	}
 	return d.edges[i*d.n+j]
 }
+
+// GoodAllVertices returns 0..n-1, which is in order by construction.
+func GoodAllVertices(g G, v int) []int {
+	all := make([]int, g.N())
+	for i := range all {
+		all[i] = i
+	}
+	return all
+}
